@@ -98,6 +98,18 @@ impl Reader {
         block_check: BlockCheck,
         in_memory: bool,
     ) -> Result<(Arc<dyn Source>, Region)> {
+        // The requested range may come from a damaged or truncated file: check it.
+        let in_bounds = offset
+            .into_u64()
+            .checked_add(size.into_u64())
+            .and_then(|end| end.checked_add(block_check.size() as u64))
+            .is_some_and(|end| end <= self.region.size().into_u64());
+        if !in_bounds {
+            return Err(format_error!(&format!(
+                "Cannot read {size} bytes at offset {offset}: out of {}",
+                self
+            )));
+        }
         let region = self.region.cut_rel(offset, size);
         Arc::clone(&self.source).cut(region, block_check, in_memory)
     }
